@@ -330,31 +330,53 @@ def findHeaderSectionWith (cm : Bool) (iters n : Nat) (ex : ExitCond) (fuel : Na
 
 /-! ### the `);` recovery scan of SDAI_Application_instance::STEPread -/
 
-def recoverInner : Nat → IS → Byte → Nat → Nat → Out (IS × Byte × Nat × Nat)
-  | 0, _, _, _, _ => .outOfFuel
-  | fuel + 1, s, c, len, steps =>
+/-- the inner loop `while( in.good() && c != ')' [&& !foundEnd] ) { in.get( c ); tmp += c; … }`.  With `stay` (regenerated:
+the scan stays in the record) a `'` toggles `inString` and a `;` outside a string literal is put back and ends the scan.
+Returns the stream, `c`, `inString`, `foundEnd`, `len` and the steps. -/
+def recoverInner (stay : Bool) : Nat → IS → Byte → Bool → Nat → Nat → Out (IS × Byte × Bool × Bool × Nat × Nat)
+  | 0, _, _, _, _, _ => .outOfFuel
+  | fuel + 1, s, c, q, len, steps =>
     if s.good && c != chRParen then
-      let (s1, c1) := match s.get with | (s', some c') => (s', c') | (s', none) => (s', c)
-      recoverInner fuel s1 c1 (len + 1) (steps + 1)
-    else .ok (s, c, len, steps)
+      if stay && (s.get).1.good && (s.get).2.getD c = chQuote then
+        recoverInner stay fuel (s.get).1 chQuote (!q) (len + 1) (steps + 1)
+      else if stay && (s.get).1.good && (s.get).2.getD c = chSemi && !q then
+        .ok ((s.get).1.putback chSemi, chSemi, q, true, len + 1, steps + 1)
+      else recoverInner stay fuel (s.get).1 ((s.get).2.getD c) q (len + 1) (steps + 1)
+    else .ok (s, c, q, false, len, steps)
 
-def recoverOuter : Nat → IS → Byte → Nat → Nat → Out LoopRes
-  | 0, _, _, _, _ => .outOfFuel
-  | fuel + 1, s, c, len, steps =>
+/-- the outer loop `while( in.good() && !foundEnd )`: after a `)`, `in >> ws; in.get( c );` and a `;` ends the scan (`pb`,
+regenerated: it is put back for the caller).  `sev` 1: the end was found. -/
+def recoverOuter (stay pb : Bool) : Nat → IS → Byte → Bool → Nat → Nat → Out LoopRes
+  | 0, _, _, _, _, _ => .outOfFuel
+  | fuel + 1, s, c, q, len, steps =>
     if !s.good then .ok ⟨s, 0, len, steps⟩ else
-    match recoverInner (fuel + 1) s c len steps with
-    | .ok (s1, c1, len1, steps1) =>
-      if s1.good && c1 == chRParen then
-        let s2 := s1.ws
-        let (s3, c3) := match s2.get with | (s', some c') => (s', c') | (s', none) => (s', c1)
-        if c3 = chSemi then .ok ⟨s3, 1, len1 + 1, steps1 + 1⟩
-        else recoverOuter fuel s3 c3 (len1 + 1) (steps1 + 1)
-      else recoverOuter fuel s1 c1 len1 (steps1 + 1)
+    match recoverInner stay (fuel + 1) s c q len steps with
+    | .ok (s1, c1, q1, fnd, len1, steps1) =>
+      if fnd then .ok ⟨s1, 1, len1, steps1⟩
+      else if s1.good && c1 == chRParen then
+        if (s1.ws.get).2.getD c1 = chSemi then
+          .ok ⟨if pb then (s1.ws.get).1.putback chSemi else (s1.ws.get).1, 1, len1 + 1, steps1 + 1⟩
+        else recoverOuter stay pb fuel (s1.ws.get).1 ((s1.ws.get).2.getD c1)
+          (if stay && (s1.ws.get).1.good && (s1.ws.get).2.getD c1 = chQuote then !q1 else q1) (len1 + 1) (steps1 + 1)
+      else recoverOuter stay pb fuel s1 c1 q1 len1 (steps1 + 1)
     | .overflow i c => .overflow i c
     | .outOfFuel => .outOfFuel
 
 /-- `in.clear()` first; `c` is the character that made `STEPread` give up -/
-def recoveryScan (fuel : Nat) (s : IS) (c : Byte) : Out LoopRes := recoverOuter fuel s.clear c 0 0
+def recoveryScan (stay pb : Bool) (fuel : Nat) (s : IS) (c : Byte) : Out LoopRes := recoverOuter stay pb fuel s.clear c false 0 0
+
+/-- `SDAI_Application_instance::STEPread` of an entity without attributes: `in >> ws; in >> c;` (a character other than `(`
+is put back), `ReadTokenSeparator`, `in >> c` — a `)` ends the read, anything else goes to the recovery scan with that `c` -/
+def stepReadNoAttrs (stay pb cm : Bool) (iters fuel : Nat) (s : IS) : Out LoopRes :=
+  match readTokenSeparator cm iters fuel
+      (if (s.ws.extract).2.getD 0 = 40 then (s.ws.extract).1 else (s.ws.extract).1.putback ((s.ws.extract).2.getD 0)) with
+  | .ok r =>
+    if (r.s.extract).2.getD ((s.ws.extract).2.getD 0) = chRParen then .ok ⟨(r.s.extract).1, 1, 0, r.steps + 1⟩
+    else
+      match recoveryScan stay pb fuel (r.s.extract).1 ((r.s.extract).2.getD ((s.ws.extract).2.getD 0)) with
+      | .ok r2 => .ok ⟨r2.s, r2.sev, r2.len, r.steps + 1 + r2.steps⟩
+      | o => o
+  | o => o
 
 /-! ### export list `/#1, #2/` of Create/ReadScopeInstances -/
 
